@@ -199,6 +199,69 @@ def check_structure(core, parser, v, name, node, rng, rec):
             rec.seen('edit_kinds', kind)
         except Exception as e:
             rec.violation('edit-raised:%s:%s' % (kind, type(e).__name__), case, {'exc': repr(e)[:200]}, row=row)
+    # ---- a repeatable segment inside a group limited to two occurrences
+    places = tables.segment_name_places(node)
+    gcands = []
+    for g in node.children:
+        if g.kind != 'GRP' or g.card[1] == 0 or [x.name for x in node.children].count(g.name) != 1:
+            continue
+        for k, sgm in enumerate(g.children):
+            if k > 0 and sgm.kind == 'SEG' and sgm.card[1] == -1 and places[sgm.name] == 1 and \
+                    all(x.kind == 'SEG' for x in g.children):
+                gcands.append((g, sgm))
+    if gcands:
+        g, sgm = rng.choice(gcands)
+        t = thaw(tables.lib(v).MESSAGES[name])
+        for c in t[1]:
+            if c[0] == g.name:
+                for cc in c[1][1]:
+                    if cc[0] == sgm.name:
+                        cc[2] = [cc[2][0], 2]
+        prof = {name: freeze(t)}
+
+        def text_with(copies):
+            out = []
+            for c in node.children:
+                if c.card[1] == 0 or (c.card[0] == 0 and c is not g):
+                    continue
+                if c is g:
+                    for m_ in g.children:
+                        if m_ is sgm:
+                            out += [structref.conforming_segment_line(v, sgm.name, 'required')] * copies
+                        elif m_.card[0] >= 1 or m_ is g.children[0]:
+                            out.append(structref.conforming_segment_line(v, m_.name, 'required'))
+                    continue
+                sub = tables.Node(name, 'MSG', (1, 1), (c,), 'sequence', True)
+                for l in structref.emit(sub, None, 'required', 1):
+                    out.append(structref.conforming_msh(v, name) if l.seg == 'MSH' else
+                               structref.conforming_segment_line(v, l.seg, 'required'))
+            return '\r'.join(out)
+        case = {'version': v, 'structure': name, 'edit': 'limit-two-in-group', 'group': g.name, 'child': sgm.name}
+        try:
+            rec.evaluation((v, name, 'limit-two-in-group', g.name, sgm.name))
+            two, three = text_with(2), text_with(3)
+            s2 = parser.parse_message(two)
+            if report(s2)[0]:
+                rec.count('instances_not_judgeable_without_profile')
+            else:
+                p2 = parser.parse_message(two, message_profile=prof)
+                rec.count('limit_two_in_group_checks')
+                if structref.tree_of(p2) != structref.tree_of(s2):
+                    rec.violation('profile-maximum-changes-the-group-tree', dict(case, text=two),
+                                  {'standard': str(structref.tree_of(s2))[-200:], 'profile': str(structref.tree_of(p2))[-200:]},
+                                  row=row)
+                elif report(p2)[0]:
+                    rec.violation('profile-conforming-instance-rejected:limit-two-in-group', dict(case, text=two),
+                                  {'errors': report(p2)[0][:3]}, row=row)
+                else:
+                    p3 = parser.parse_message(three, message_profile=prof)
+                    if not any(sgm.name in e for e in report(p3)[0]):
+                        rec.violation('profile-constraint-not-enforced-by-validate:limit-two-in-group',
+                                      dict(case, text=three), {'profile_errors': report(p3)[0][:3]}, row=row)
+                    else:
+                        rec.seen('edit_kinds', 'limit-two-in-group')
+        except Exception as e:
+            rec.violation('edit-raised:limit-two-in-group:%s' % type(e).__name__, case, {'exc': repr(e)[:200]}, row=row)
     # ---- datatype edit on a leaf field of a target segment
     dcands = []
     for c in targets:
@@ -398,7 +461,7 @@ def floors(tier, m):
     c = m['counters']
     if c.get('structures_used', 0) < 200:
         out.append('fewer than 200 structures')
-    if set(m['seen'].get('edit_kinds', ())) != {'tighten', 'require', 'forbid', 'datatype'}:
+    if set(m['seen'].get('edit_kinds', ())) != {'tighten', 'require', 'forbid', 'datatype', 'limit-two-in-group'}:
         out.append('edit kinds judged: %s' % sorted(m['seen'].get('edit_kinds', ())))
     if c.get('identity_comparisons', 0) < 200 or c.get('verdict_comparisons', 0) < 200 or \
             c.get('datatype_observations', 0) < 300:
